@@ -96,7 +96,7 @@ class Configuration(object):
                 self.ike_configurations[(ikeconf.my_addr, ikeconf.peer_addr)] = ikeconf
             except KeyError as ex:
                 raise ConfigurationError(f'Mandatory parameter {ex} missing for connection "{connection_name}"')
-            except (TypeError, AttributeError, ValueError, IkeSaError) as ex:
+            except (TypeError, AttributeError, ValueError, OverflowError, IkeSaError) as ex:
                 raise ConfigurationError(f'Invalid value in connection "{connection_name}": {ex}')
 
     def _load_ike_conf(self, name, conf_dict, my_addresses):
